@@ -332,4 +332,162 @@ pub fn run(rep: &mut Rep) {
             add_counters(rep, &w);
         }
     }
+    run_given_up_while_resending(rep);
+}
+
+/// The application gives up on run() (drops its future, as a timeout around it does) while the resumed connection does not
+/// accept bytes and the unfinished exchanges are waiting to be sent again, then calls run() again on the same connection.
+/// The exchanges carried over are counted against the new Receive Maximum once: at least R - k and at most R further QoS>0
+/// publishes are accepted, and once everything has been acknowledged exactly R are.
+/// (run() is only ever dropped between two packets: dropping it inside one leaves half a packet on the wire, which no
+/// property promises to survive.)
+fn run_given_up_while_resending(rep: &mut Rep) {
+    use crate::refcodec::{self as rc, AckForm, AckKind, CPacket, Prop, SPacket};
+    use crate::sim::{Cmd, Sim};
+    use crate::spec::{ConnSpec, ErrSum, OpSpec, PubSpec};
+    rep.note("run() given up while re-sending: 1-3 unfinished exchanges (QoS 1, QoS 2 before and after PUBREC) carried into a resumed connection with Receive Maximum k+1 .. k+3 whose transport stops accepting bytes before the first or between two re-sent packets; the run() future is dropped there, the transport recovers and run() is called again: the window left is probed, every exchange acknowledged, and the window probed again");
+    let mut idx = 7_000_000u64;
+    for k in 1..=3usize {
+        for extra in 1..=3u16 {
+            for cut in 0..k {
+                for variant in 0..3usize {
+                    let id = format!("rerun:{k}:{extra}:{cut}:{variant}");
+                    idx += 1;
+                    if !rep.take(idx, &id) {
+                        continue;
+                    }
+                    let r2 = k as u16 + extra;
+                    let mut sim = Sim::new(rep.seed);
+                    sim.log_enabled = true;
+                    sim.cmd(Cmd::Connect(ConnSpec { sei: Some(3600), ..Default::default() }));
+                    sim.settle();
+                    sim.feed_packet(&SPacket::Connack { session_present: false, reason: 0, props: vec![] });
+                    sim.settle();
+                    sim.cmd(Cmd::Run);
+                    sim.settle();
+                    sim.parse_wire();
+                    let base = sim.wire.len();
+                    // k exchanges: kinds rotate with the variant (0 = QoS 1, 1 = QoS 2 before PUBREC, 2 = QoS 2 after PUBREC)
+                    let mut kinds = Vec::new();
+                    for j in 0..k {
+                        let kind = (j + variant) % 3;
+                        kinds.push(kind);
+                        sim.start_op(0, OpSpec::Publish(PubSpec::simple(if kind == 0 { 1 } else { 2 }, &format!("o/{j}"), format!("payload {j} {}", "x".repeat(j * 40)).as_bytes())));
+                        sim.settle();
+                    }
+                    sim.parse_wire();
+                    let firsts: Vec<(u16, usize)> = sim.wire[base..].iter().filter_map(|w| match &w.pkt { Ok(CPacket::Publish(p)) => Some((p.id.unwrap_or(0), w.bytes.len())), _ => None }).collect();
+                    if firsts.len() != k {
+                        rep.violation("C10/connection-given-up/publishes-not-written", &id, &format!("{k} publishes within the default window, {} written\n{}", firsts.len(), sim.tail_log(20)));
+                        continue;
+                    }
+                    for j in 0..k {
+                        if kinds[j] == 2 {
+                            sim.feed_packet(&SPacket::Ack { kind: AckKind::Pubrec, id: firsts[j].0, reason: 0, props: vec![], form: AckForm::Short2 });
+                            sim.settle();
+                        }
+                    }
+                    sim.set_eof();
+                    sim.settle();
+                    sim.cmd(Cmd::MarkDisconnected(1));
+                    sim.new_transport();
+                    sim.cmd(Cmd::Connect(ConnSpec { sei: Some(3600), ..Default::default() }));
+                    sim.settle();
+                    sim.feed_packet(&SPacket::Connack { session_present: true, reason: 0, props: vec![Prop::u16(33, r2)] });
+                    sim.settle();
+                    // re-sent in queue order: PUBLISH entries keep their place, a PUBREL is queued when its PUBREC arrives
+                    let mut order: Vec<usize> = (0..k).filter(|&j| kinds[j] != 2).map(|j| firsts[j].1).collect();
+                    order.extend((0..k).filter(|&j| kinds[j] == 2).map(|_| 4usize));
+                    let stall = sim.written_len() + order[..cut].iter().sum::<usize>();
+                    sim.writer.0.borrow_mut().stall_at = Some(stall);
+                    sim.cmd(Cmd::Run);
+                    sim.settle();
+                    let stuck = sim.ctx_sh.borrow().in_call == Some("run") && sim.written_len() == stall;
+                    sim.cancel_run();
+                    sim.settle();
+                    let cancelled = sim.ctx_sh.borrow().runs_cancelled;
+                    sim.writer.0.borrow_mut().stall_at = None;
+                    sim.cmd(Cmd::Run);
+                    sim.settle();
+                    rep.add("evaluations", 1);
+                    if !(stuck && cancelled == 1) {
+                        rep.add("rerun_cases_not_reaching_the_stall", 1);
+                        continue;
+                    }
+                    rep.add("run_given_up_while_resending_cases", 1);
+                    rep.distinct(&("rerun", k, extra, cut, variant));
+                    let mut bad = false;
+                    for p in sim.panics.clone() {
+                        rep.violation(&format!("C10/panic/{p}"), &id, &format!("panic: {p}\n{}", sim.tail_log(30)));
+                        bad = true;
+                    }
+                    if let Some(r) = sim.run_result() {
+                        rep.violation(&format!("C10/connection-given-up/run-returned-without-cause/{}", match &r { Ok(()) => "Ok".to_string(), Err(e) => e.kind().to_string() }), &id, &format!("second run() on the resumed connection returned {:?}\n{}", r, sim.tail_log(30)));
+                        bad = true;
+                    }
+                    if bad {
+                        continue;
+                    }
+                    // probe: QoS 1 publishes until the first refusal
+                    let mut probe = |sim: &mut Sim, cap: usize, tag: &str| -> (usize, Vec<u16>) {
+                        let mut ids = Vec::new();
+                        let mut n = 0;
+                        for j in 0..cap {
+                            sim.parse_wire();
+                            let before = sim.wire.len();
+                            let op = sim.start_op(0, OpSpec::Publish(PubSpec::simple(1, &format!("probe/{tag}/{j}"), b"q")));
+                            sim.settle();
+                            sim.parse_wire();
+                            if matches!(sim.ops[op].out.as_ref().and_then(|o| o.err()), Some(ErrSum::QuotaExceeded)) {
+                                break;
+                            }
+                            match sim.wire.get(before).map(|w| w.pkt.clone()) {
+                                Some(Ok(CPacket::Publish(p))) if p.qos == 1 => ids.push(p.id.unwrap_or(0)),
+                                _ => break,
+                            }
+                            n += 1;
+                        }
+                        (n, ids)
+                    };
+                    let (n1, new_ids) = probe(&mut sim, r2 as usize + 2, "a");
+                    rep.add("quota_probes", 1);
+                    let lo = extra as usize;
+                    if n1 < lo {
+                        rep.violation("C10/probe-mismatch/slot-leaked/run-given-up-while-resending", &id, &format!("{k} exchanges carried into a connection with Receive Maximum {r2}; run() dropped after {cut} re-sent packets and called again: {lo} further QoS 1 publishes must be accepted, the client accepted {n1}\n{}", sim.tail_log(40)));
+                        continue;
+                    }
+                    if n1 > r2 as usize {
+                        rep.violation("C10/probe-mismatch/over-admission/run-given-up-while-resending", &id, &format!("Receive Maximum {r2}: {n1} publishes accepted without an acknowledgement\n{}", sim.tail_log(40)));
+                        continue;
+                    }
+                    // acknowledge everything: the exchanges carried over and the probes
+                    for j in 0..k {
+                        let pid = firsts[j].0;
+                        match kinds[j] {
+                            0 => sim.feed_packet(&SPacket::Ack { kind: AckKind::Puback, id: pid, reason: 0, props: vec![], form: AckForm::Short2 }),
+                            1 => {
+                                sim.feed_packet(&SPacket::Ack { kind: AckKind::Pubrec, id: pid, reason: 0, props: vec![], form: AckForm::Short2 });
+                                sim.settle();
+                                sim.feed_packet(&SPacket::Ack { kind: AckKind::Pubcomp, id: pid, reason: 0, props: vec![], form: AckForm::Short2 });
+                            }
+                            _ => sim.feed_packet(&SPacket::Ack { kind: AckKind::Pubcomp, id: pid, reason: 0, props: vec![], form: AckForm::Short2 }),
+                        }
+                        sim.settle();
+                    }
+                    for pid in new_ids {
+                        sim.feed_packet(&SPacket::Ack { kind: AckKind::Puback, id: pid, reason: 0, props: vec![], form: AckForm::Short2 });
+                        sim.settle();
+                    }
+                    let (n2, _) = probe(&mut sim, r2 as usize + 2, "b");
+                    rep.add("quota_probes", 1);
+                    if n2 != r2 as usize {
+                        rep.violation(&format!("C10/probe-mismatch/{}/run-given-up-while-resending", if n2 < r2 as usize { "slot-leaked" } else { "over-admission" }), &id, &format!("every exchange acknowledged, Receive Maximum {r2}: exactly {r2} further QoS 1 publishes must be accepted, the client accepted {n2}\n{}", sim.tail_log(40)));
+                        continue;
+                    }
+                    let _ = rc::CONNACK_REASONS;
+                    rep.sample(|| format!("{id}: {k} exchanges carried over, Receive Maximum {r2}, run() dropped after {cut} re-sent packets; {n1} publishes accepted before the first refusal, {n2} after everything was acknowledged"));
+                }
+            }
+        }
+    }
 }
